@@ -118,7 +118,7 @@ R.contracts[(D, "IntDistribution._contains")].cases = [case("ok", returns=(
     "self.low <= param_value_in_internal_repr and param_value_in_internal_repr <= self.high and "
     "(param_value_in_internal_repr - self.low) % self.step == 0"))]
 R.contracts[(D, "IntDistribution._contains")].returns_kind = "bool"
-R.spec(D, "IntDistribution.single", props=["C10", "C14"], requires=["self.step >= 1", "self.low <= self.high",
+R.spec(D, "IntDistribution.single", props=["C10"], requires=["self.step >= 1", "self.low <= self.high",
                                                                    "(self.high - self.low) % self.step == 0"],
        cases=[case("ok", returns="self.low == self.high")], returns_kind="bool")
 R.spec(D, "FloatDistribution._contains", variant="nostep", props=["C10", "C11"],
